@@ -103,10 +103,10 @@ theorem kktSolve_kstep {S : KktSys α} {lhs rhs vars : Vars α} {data : ProblemD
     cases h
     exact hk
 
-theorem solveInitialPoint_kstep {S : KktSys α} {vars : Vars α} {data : ProblemData α} {st : LinSettings α}
-    {r : Bool × Vars α × KktSys α} (h : S.solveInitialPoint vars data st = .ok r) :
+theorem solveInitialPointCore_kstep {S : KktSys α} {vars : Vars α} {data : ProblemData α} {st : LinSettings α}
+    {r : Bool × Vars α × KktSys α} (h : S.solveInitialPointCore vars data st = .ok r) :
     KStep st S.kktsolver r.2.2.kktsolver := by
-  unfold KktSys.solveInitialPoint at h
+  unfold KktSys.solveInitialPointCore at h
   split at h
   · obtain ⟨workz, _, h⟩ := bind_ok_inv h
     obtain ⟨K, hK, h⟩ := bind_ok_inv h
@@ -170,6 +170,12 @@ theorem solveInitialPoint_kstep {S : KktSys α} {vars : Vars α} {data : Problem
       · cases h
       · cases h
         exact hk
+
+theorem solveInitialPoint_kstep {S : KktSys α} {vars : Vars α} {data : ProblemData α} {st : LinSettings α}
+    {r : Bool × Vars α × KktSys α} (h : S.solveInitialPoint vars data st = .ok r) :
+    KStep st S.kktsolver r.2.2.kktsolver := by
+  rw [KktSys.solveInitialPoint_eq_core] at h
+  exact solveInitialPointCore_kstep h
 
 /-! ### one pass, the loop, `default_start`, `solve()` -/
 
